@@ -658,6 +658,9 @@ func (g *graph) compile(ctx context.Context, opt *graphCompileOptions) (*composa
 			return nil, errors.New("chain doesn't support node trigger mode option")
 		}
 	}
+	if opt != nil && opt.nodeTriggerMode != "" && opt.nodeTriggerMode != AnyPredecessor && opt.nodeTriggerMode != AllPredecessor {
+		return nil, fmt.Errorf("unknown node trigger mode: %s", opt.nodeTriggerMode)
+	}
 	if (opt != nil && opt.nodeTriggerMode == AllPredecessor) || isWorkflow(g.cmp) {
 		runType = runTypeDAG
 		cb = dagChannelBuilder
